@@ -121,4 +121,25 @@ structure GuardedCode (m : Nat) where
   prog : Prog
   guarded : prog.Guarded m = true
 
+/-! ## The scratch QName (`XalanQNameByValue::resolvePrefix`, prefixed branch, XalanQNameByValue.cpp:403-452)
+
+`if (theNamespace != 0) m_namespace = *theNamespace; [else m_namespace.clear();]  if (m_namespace.empty()) throw …;`
+on an instance that still holds the previous lookup.  `clears` = is the bracketed `else` present (read from the code by the
+translator: `Generated.C06.scratchQNameClearsOnUndeclared`). -/
+structure ScratchQName where
+  ns : List Nat
+  localPart : List Nat
+deriving DecidableEq, Repr
+
+inductive Resolved where
+  | ok (q : ScratchQName)
+  | prefixNotDeclared
+deriving DecidableEq, Repr
+
+def resolvePrefixed (clears : Bool) (prev : ScratchQName) (lookup : Option (List Nat)) (lp : List Nat) : Resolved :=
+  let ns := match lookup with
+    | some u => u
+    | none => if clears then [] else prev.ns
+  if ns = [] then .prefixNotDeclared else .ok ⟨ns, lp⟩
+
 end XalanModel.C06
